@@ -26,6 +26,16 @@ theorem capacity_never_exceeded (h : run (init m) ops = .ok s) :
   let i := run_inv m ops _ s (init_inv m) h
   ⟨i.nonneg, i.total⟩
 
+/-- The uncontended path of `acquire` has no suspension point: in one atomic block the task takes its weight and is in
+the body, so there is no moment at which it owns weight while being neither queued, nor woken, nor in the body (where a
+cancellation could strand the weight).  A real run that shows an acquiring task suspended anywhere else disagrees with the
+model (the harness cancels tasks at their j-th suspension, whatever it is, to find such a point). -/
+theorem fast_path_enters_at_once (s : State) (i w : Nat) (ha : active s i = false) (hm : w ≤ s.max)
+    (hv : s.value ≥ (w : Int)) :
+    step s (.acquire i w) = .ok { s with value := s.value - w, holders := s.holders ++ [(w, i)] } := by
+  have : ¬ s.max < w := by omega
+  simp [step, ha, this, hv]
+
 /-- Every exit kind returns the weight: if task `i` is in the body with weight `w`, then leaving normally, by an
 exception or by cancellation are the same step; afterwards `i` is no longer a holder and exactly `w` has gone back
 to the free value or straight to waiters granted by this very release. -/
